@@ -17,6 +17,9 @@ PaletteValues ==
     <<32>>,                  \* blank only
     <<233, 44>> }            \* non-ASCII, trailing comma
 
+(* quick tier: the same without the two classes that MC_Csv_deep covers character by character *)
+QuickValues == PaletteValues \ { <<10, 98>>, <<233, 44>> }
+
 SmallValues == { <<97>>, <<34, 44>> }
 
 Alphabet == {97, 44, 34, 39, 13, 10, 32}
